@@ -23,8 +23,10 @@ ASSUMPTIONS = [
     "documented table shapes (n,) and (n,1) must both be accepted: an explicit rejection of one of them is a violation, not 'unsupported'",
 ]
 TIMEOUT = {"quick": 900, "thorough": 3000}
-MIN_COUNTERS = {"quick": {"obs_rows_checked": 1200, "param_samples_checked": 900, "multi_batches_checked": 50},
-                "thorough": {"obs_rows_checked": 12000, "param_samples_checked": 8000, "multi_batches_checked": 400}}
+MIN_COUNTERS = {"quick": {"obs_rows_checked": 1200, "param_samples_checked": 900, "multi_batches_checked": 50,
+                          "obs_loaders_with_sharding_device": 5},
+                "thorough": {"obs_rows_checked": 12000, "param_samples_checked": 8000, "multi_batches_checked": 400,
+                             "obs_loaders_with_sharding_device": 40}}
 
 
 def gen_cases(tier, seed):
@@ -36,7 +38,8 @@ def gen_cases(tier, seed):
         b = int(rng.integers(1, n + 1))
         cases.append(dict(kind="obs", n=n, b=b, kin=int(rng.integers(0, 4)), kout=int(rng.integers(0, 4)),
                           nparams=int(rng.integers(0, 4)), pshape=int(rng.integers(2)),
-                          key=seed * 100 + k, eager=(k % 5 == 0), cost=1.0, x64=bool(k % 3)))
+                          key=seed * 100 + k, eager=(k % 5 == 0), cost=1.0, x64=bool(k % 3),
+                          sharding=bool(k % 4 == 1)))
     combos = list(itertools.product(("range", "table1", "table2", "both1", "both2"), repeat=2))
     for k, (ca, cb) in enumerate(combos * (1 if q else 8)):
         n = int(rng.integers(1, 25))
@@ -77,8 +80,13 @@ def run_case(case, rec):
         for j in range(case["nparams"]):
             a = np.arange(n, dtype=float) + 0.5 + 10000.0 * (j + 1)
             eqp["p%d" % j] = a if case["pshape"] == 0 else a[:, None]
+        kw = {}
+        if case.get("sharding"):
+            # the documented sharding_device option, with the only (CPU) device: must not change what is served
+            kw["sharding_device"] = jax.sharding.SingleDeviceSharding(jax.devices()[0])
+            rec.count("obs_loaders_with_sharding_device")
         g = guard.call(jinns.data.DataGeneratorObservations, jax.random.PRNGKey(case["key"]), b,
-                       jnp.asarray(pin), jnp.asarray(val), {k: jnp.asarray(v) for k, v in eqp.items()})
+                       jnp.asarray(pin), jnp.asarray(val), {k: jnp.asarray(v) for k, v in eqp.items()}, **kw)
         step = (lambda gg: gg.get_batch()) if case["eager"] else jax.jit(lambda gg: gg.get_batch())
         g_epoch = -(-n // b)
         pin2 = pin[:, None] if pin.ndim == 1 else pin
@@ -133,8 +141,14 @@ def run_case(case, rec):
             if spec in ("table2", "both2"):
                 tables[kk] = tab[:, None]
             expect[kk] = ("table", tab) if kk in tables else ("range", (lo, hi))
+        pkey = jax.random.PRNGKey(case["key"])
+        if case["key"] % 3 == 1:
+            # the documented alternative: one random key per parameter name
+            names_ = sorted(set(ranges) | set(tables))
+            pkey = dict(zip(names_, jax.random.split(pkey, len(names_))))
+            rec.count("param_loaders_with_key_dict")
         try:
-            g = guard.call(jinns.data.DataGeneratorParameter, jax.random.PRNGKey(case["key"]), n, b,
+            g = guard.call(jinns.data.DataGeneratorParameter, pkey, n, b,
                            param_ranges=ranges, method=case["method"],
                            user_data={k: jnp.asarray(v) for k, v in tables.items()})
         except guard.Unsupported as u:
